@@ -720,6 +720,16 @@ def returns_ast(ctx: TermCtx, fi: FuncInfo) -> bool:
 
 
 # ---------------------------------------------------------------------------------- role-based discovery
+def view(model: Model, fi: Optional[FuncInfo]) -> Optional[FuncInfo]:
+    """the normalised view of a function (sa/normalise.py): private helpers it returns through / calls as procedures
+    inlined, literal dispatch tables read as if-chains. Reports still name the real function."""
+    if fi is None:
+        return None
+    from .normalise import unrolled
+
+    return unrolled(model, fi)
+
+
 def private_callees(model: Model, fi: FuncInfo) -> List[FuncInfo]:
     """package functions / methods called from fi that are private helpers: nested in fi, underscore-named
     functions of the same module, or underscore-named methods of the same class."""
@@ -852,13 +862,30 @@ def _call_events(ctx: TermCtx, fi: FuncInfo, pred: Callable[[str], bool], depth:
         elif isinstance(f, ast.Attribute) and isinstance(f.value, ast.Name) and fi.cls is not None and fi.pos_params and f.value.id == fi.pos_params[0]:
             g = model.find_method(fi.cls, f.attr)
             skip = 0 if (g is not None and "staticmethod" in g.decorators) else 1
+        self_term = ("param", fi.pos_params[0]) if fi.pos_params else None
+        if g is None and isinstance(f, ast.Attribute):
+            # a method of a private record object built in this function: remapped.as_call("Select")
+            try:
+                rt_ = strip_sites(fa.term_of(f.value))
+            except AnalysisError:
+                rt_ = None
+            if rt_ is not None and rt_[0] == "new" and isinstance(rt_[1], str) and ":" in rt_[1]:
+                rc_ = model.classes.get(rt_[1])
+                g = model.find_method(rc_, f.attr) if rc_ is not None else None
+                if g is not None and not g.is_property and depth > 0 and g.qual not in _stack:
+                    skip = 0 if "staticmethod" in g.decorators else 1
+                    self_term = rt_
+                    helpers = dict(helpers)
+                    helpers[g.qual] = g
+                else:
+                    g = None
         if g is None or g.qual not in helpers or depth <= 0 or g.qual in _stack:
             continue
         ga = ctx.analysis(g)
         binding = {}
         params = g.pos_params[skip:]
         if skip:
-            binding[("param", g.pos_params[0])] = ("param", fi.pos_params[0])
+            binding[("param", g.pos_params[0])] = self_term
         for p_, a in zip(params, c.args):
             binding[("param", p_)] = strip_sites(fa.term_of(a))
         va = getattr(g.node.args, "vararg", None)
@@ -878,7 +905,16 @@ def _call_events(ctx: TermCtx, fi: FuncInfo, pred: Callable[[str], bool], depth:
                 ev = Event(b[2], ev.args, ev.kwargs, ev.site, ev.must, ev.via, ev.call, ev.owner, b[1], ev.binding)
                 out.append(Event(ev.name, tuple(splice_literals(subst(a, binding)) for a in ev.args), tuple((k, splice_literals(subst(v, binding))) for k, v in ev.kwargs), node, must, (g.name,) + ev.via, ev.call, ev.owner, ev.recv, {**binding, **{k: subst(v, binding) for k, v in ev.binding.items()}} if ev.binding else dict(binding)))
                 continue
-            out.append(Event(ev.name, tuple(splice_literals(subst(a, binding)) for a in ev.args), tuple((k, splice_literals(subst(v, binding))) for k, v in ev.kwargs), node, must, (g.name,) + ev.via, ev.call, ev.owner, subst(ev.recv, binding) if ev.recv is not None else None, {**binding, **{k: subst(v, binding) for k, v in ev.binding.items()}} if ev.binding else dict(binding)))
+            a2 = tuple(subst(a, binding) for a in ev.args)
+            k2 = tuple((k, subst(v, binding)) for k, v in ev.kwargs)
+            if any(isinstance(v_, tuple) and v_ and v_[0] == "new" for v_ in binding.values()):
+                from .terms import _reduce_fields as _rf
+
+                fa.model_property_alias("")
+                al_ = type(fa)._prop_alias_cache.get(id(model), {})
+                a2 = tuple(_rf(a, al_) for a in a2)
+                k2 = tuple((k, _rf(v, al_)) for k, v in k2)
+            out.append(Event(ev.name, tuple(splice_literals(a) for a in a2), tuple((k, splice_literals(v)) for k, v in k2), node, must, (g.name,) + ev.via, ev.call, ev.owner, subst(ev.recv, binding) if ev.recv is not None else None, {**binding, **{k: subst(v, binding) for k, v in ev.binding.items()}} if ev.binding else dict(binding)))
     return out
 
 
